@@ -126,7 +126,7 @@ func (m *monitors) electionFactsLocked(shard, skip int64) string {
 		if t == skip {
 			continue
 		}
-		if strings.Contains(n, "was ignored") || strings.Contains(n, "NOT a majority") || strings.Contains(n, "did not count when the leader was chosen") {
+		if strings.Contains(n, "was ignored") || strings.Contains(n, "NOT a majority") || strings.Contains(n, "did not count when the leader was chosen") || strings.Contains(n, "have yet to catch up") {
 			out = append(out, n)
 		}
 	}
@@ -700,6 +700,19 @@ func (m *monitors) checkBecomeLeader(dst string, req *proto.BecomeLeaderRequest,
 		below := ""
 		for _, x := range m.headBelow[req.Shard][req.Term] {
 			below += "; " + x
+		}
+		if lh := resp[dst]; lh != nil && len(sm.RemovedNodes) > 0 && lh.Offset >= 0 {
+			// a swap election: once it succeeds the removed nodes' replicas are deleted.  How many of the
+			// members that answered hold what the chosen leader holds?
+			holders := 1
+			for n := range ens {
+				if h := resp[n]; n != dst && h != nil && (h.Term > lh.Term || (h.Term == lh.Term && h.Offset >= lh.Offset)) {
+					holders++
+				}
+			}
+			if holders < len(ens)/2+1 {
+				below += fmt.Sprintf("; the removed nodes' replicas are deleted after this election although only %d of the %d members of the new ensemble are known to hold the log up to %d/%d, the others have yet to catch up", holders, len(ens), lh.Term, lh.Offset)
+			}
 		}
 		if lh := resp[dst]; lh != nil {
 			for _, x := range sm.RemovedNodes {
